@@ -225,7 +225,7 @@ def run_solver(case):
     special = False
     for pr in pairs:
         bs_r, bs_t, cf_r, cf_t = np.array(pr['bs_r'], float), np.array(pr['bs_t'], float), np.array(pr['cf_r'], float), np.array(pr['cf_t'], float)
-        if np.linalg.norm(bs_r) == 0 or np.linalg.norm(cf_r) == 0 or np.linalg.norm(bs_r) > math.pi or np.linalg.norm(cf_r) > math.pi:
+        if np.linalg.norm(bs_r) == 0 or np.linalg.norm(cf_r) == 0 or np.linalg.norm(bs_r) > math.pi - 1e-5 or np.linalg.norm(cf_r) > math.pi - 1e-5:
             special = True
         bsP = Pose.from_rot_vec(bs_r, bs_t)
         cfP = Pose.from_rot_vec(cf_r, cf_t)
@@ -258,9 +258,15 @@ def run_solver(case):
 
 @st.composite
 def _anyrotvec(draw):
-    kind = draw(st.sampled_from(['zero', 'beyond', 'normal', 'normal', 'yaw']))
+    kind = draw(st.sampled_from(['zero', 'beyond', 'normal', 'normal', 'yaw', 'half-turn']))
     if kind == 'zero':
         return [0.0, 0.0, 0.0]
+    if kind == 'half-turn':
+        # exactly (or within a hair of) half a turn: facing backwards, upside down, about a diagonal
+        ax = np.array(draw(st.sampled_from([[1.0, 0, 0], [0, 1.0, 0], [0, 0, 1.0], [1.0, 1.0, 0], [0, 1.0, -1.0], [1.0, 1.0, 1.0]])), float)
+        ax = ax / np.linalg.norm(ax)
+        ang = math.pi + draw(st.sampled_from([0.0, 0.0, 1e-9, -1e-9, 1e-7, -1e-6]))
+        return [float(x) for x in ax * ang]
     ax = np.array([draw(st.floats(-1, 1, allow_nan=False)) for _ in range(3)])
     if np.linalg.norm(ax) < 1e-3 or kind == 'yaw':
         ax = np.array([0.0, 0.0, 1.0])
